@@ -19,6 +19,7 @@ func paHex() string {
 }
 
 type chainGen struct {
+	da     uint64 // > 0: events carry increasing DA heights (the DA height of an event must not influence what is stored)
 	w      io.Writer
 	r      *hx.Rng
 	ts     int64
@@ -86,11 +87,22 @@ func (g *chainGen) events() []ev {
 }
 
 func (g *chainGen) emit(e ev) {
+	verb := "hdr"
 	if e.dat {
-		fmt.Fprintf(g.w, "dat h=%d\n", e.h)
-	} else {
-		fmt.Fprintf(g.w, "hdr h=%d\n", e.h)
+		verb = "dat"
 	}
+	if g.da > 0 {
+		g.da += uint64(g.r.Intn(3))
+		fmt.Fprintf(g.w, "%s h=%d da=%d\n", verb, e.h, g.da)
+		return
+	}
+	fmt.Fprintf(g.w, "%s h=%d\n", verb, e.h)
+}
+
+// junk: unauthenticated P2P data naming height h (genuine chain id / height / time) with transactions no block holds
+func (g *chainGen) junk(h uint64) {
+	g.seq++
+	fmt.Fprintf(g.w, "junkdat h=%d txs=%s\n", h, hx.HexList([][]byte{[]byte(fmt.Sprintf("junk%d", g.seq))}))
 }
 
 func permute(a []ev, f func([]ev)) {
@@ -120,6 +132,50 @@ func GenC02(r *hx.Rng, tier string, w io.Writer) {
 	for _, e := range g.events() {
 		g.emit(e)
 	}
+	// corpus: junk P2P data (types.Data is not signed).  (a) the repaired halt: junk for the next height, then the genuine
+	// header; the genuine data later.  (b) junk replacing the locally built data of an empty block whose predecessor is not
+	// applied yet.  (c) junk for applied, far-future and non-existing heights.
+	g.reset(1)
+	g.produce(1)
+	g.produce(0)
+	g.produce(1)
+	g.emit(ev{false, 1})
+	g.junk(2)
+	g.emit(ev{false, 2})
+	g.emit(ev{false, 3})
+	g.junk(3)
+	g.junk(1)
+	g.junk(9)
+	g.emit(ev{true, 2})
+	g.emit(ev{false, 4})
+	g.junk(4)
+	g.emit(ev{true, 4})
+	g.junk(4)
+	// (d) what remains (recorded finding): the genuine data is cached and marked seen, a junk item replaces it, the header
+	// arrives (the junk is dropped), every later delivery of the genuine data is dropped as already seen
+	g.reset(1)
+	g.produce(1)
+	g.produce(1)
+	g.emit(ev{false, 1})
+	g.emit(ev{true, 2})
+	g.junk(2)
+	g.emit(ev{false, 2})
+	g.emit(ev{true, 2})
+	g.emit(ev{false, 3})
+	g.emit(ev{true, 3})
+	// corpus: events carrying increasing DA heights, with a restart in between
+	g.reset(2)
+	g.da = 7
+	g.produce(1)
+	g.produce(0)
+	g.produce(1)
+	for i, e := range g.events() {
+		g.emit(e)
+		if i == 2 {
+			fmt.Fprintln(w, "restart")
+		}
+	}
+	g.da = 0
 	// every delivery order of a small chain: genesis(empty), non-empty, empty, non-empty
 	shape := []int{1, 0, 1}
 	if tier == "thorough" {
@@ -193,8 +249,25 @@ func GenC02(r *hx.Rng, tier string, w io.Writer) {
 				order = append(order, evs[j])
 			}
 		}
+		// a quarter of the scenarios: events carry increasing DA heights
+		if r.Chance(25) {
+			g.da = 1 + uint64(r.Intn(50))
+		}
+		// a third of the scenarios: junk P2P data items for random heights at random positions - but only BEFORE the genuine
+		// data of that height (junk after it is the recorded finding, generated deliberately above)
+		junky := r.Chance(33)
+		datSeen := map[uint64]bool{}
 		for _, e := range order {
+			if junky && r.Chance(25) {
+				h := g.ih + uint64(r.Intn(int(g.n)+2))
+				if !datSeen[h] {
+					g.junk(h)
+				}
+			}
 			g.emit(e)
+			if e.dat {
+				datSeen[e.h] = true
+			}
 			if r.Chance(6) {
 				fmt.Fprintln(w, "restart")
 			}
@@ -203,6 +276,7 @@ func GenC02(r *hx.Rng, tier string, w io.Writer) {
 		for _, e := range g.events() {
 			g.emit(e)
 		}
+		g.da = 0
 	}
 }
 
@@ -249,6 +323,66 @@ func GenC05(r *hx.Rng, tier string, w io.Writer) {
 							fmt.Fprintf(w, "crash keep=%d\n", nested)
 						}
 						// re-delivery of everything in a random order, then in order
+						for _, j := range r.Perm(len(evs)) {
+							g.emit(evs[j])
+						}
+						for _, e := range evs {
+							g.emit(e)
+						}
+					}
+				}
+			}
+		}
+	}
+	staleFamily(g, r, tier, w)
+}
+
+// staleFamily: a crash after an earlier CLEAN stop restarts on the cache files of that older generation (items by height,
+// seen-sets): the caches may then hold header and data of the next height while every re-delivery is dropped as seen.
+func staleFamily(g *chainGen, r *hx.Rng, tier string, w io.Writer) {
+	shapes := [][]int{{1, 1, 1}, {1, 0, 1}}
+	if tier == "thorough" {
+		shapes = append(shapes, []int{0, 1, 1, 0}, []int{1, 1, 0, 1, 1})
+	}
+	for _, ih := range []uint64{1, 4} {
+		for _, shape := range shapes {
+			total := uint64(len(shape) + 1)
+			for gap := uint64(0); gap+1 < total; gap++ { // the block whose parts arrive only after the clean restart
+				maxKeep := 3 * int(total-gap)
+				for keep := 0; keep <= maxKeep; keep++ {
+					if tier != "thorough" && keep%2 == 1 && keep != 1 {
+						continue
+					}
+					for variant := 0; variant < 3; variant++ {
+						if tier != "thorough" && variant == 2 && keep%4 != 0 {
+							continue
+						}
+						g.reset(ih)
+						for _, k := range shape {
+							g.produce(k)
+						}
+						evs := g.events()
+						// generation 1 of the caches: everything except block `gap`, delivered out of order, then a clean stop
+						for _, j := range r.Perm(len(evs)) {
+							if evs[j].h != ih+gap {
+								g.emit(evs[j])
+							}
+						}
+						fmt.Fprintln(w, "restart")
+						if variant == 1 { // a second generation: the same caches written again after a duplicate
+							g.emit(evs[len(evs)-1])
+							fmt.Fprintln(w, "restart")
+						}
+						// the gap is filled: blocks gap..top are applied in one step; the process dies after `keep` of its writes
+						if !g.empty[ih+gap] {
+							g.emit(ev{true, ih + gap})
+						}
+						g.emit(ev{false, ih + gap})
+						fmt.Fprintf(w, "crash keep=%d stale=1\n", keep)
+						if variant == 2 { // nested: the restart's own writes (it applies blocks from the stale caches) are cut as well
+							fmt.Fprintf(w, "crash keep=%d stale=1\n", 1+keep%3)
+						}
+						// everything again, in a random order and then in order
 						for _, j := range r.Perm(len(evs)) {
 							g.emit(evs[j])
 						}
